@@ -4,6 +4,7 @@ import (
 	"context"
 	"fmt"
 	"strings"
+	"sync/atomic"
 
 	"github.com/orda-io/orda/client/pkg/errors"
 	"github.com/orda-io/orda/client/pkg/model"
@@ -19,15 +20,15 @@ func init() {
 		ID:      "C16",
 		Level:   "exploration",
 		Workers: 16,
-		Rule: "request mutation over the real service: valid requests captured from correct clients in all states (due-to-create, due-to-subscribe, subscribed with and without pending operations) are mutated in one to three fields - unknown / foreign / empty / swapped DUID, unknown or empty key, wrong type, every combination of the seven option bits (read-only with and without operations, snapshot, delete, unsubscribe, error), checkpoints stale / future / huge / zero, operation lists with gaps, repeats, reordering, foreign client id, other era, emptied, 500 operations; unregistered / foreign-collection / administrative / empty client id, unknown / other / empty collection, no packs, duplicated packs - plus ClientMessage, PatchMessage (invalid JSON, non-object JSON, key of another type, unknown collection) and CollectionMessage variants. Monitors: every call is answered (watchdog classification: a handler that ended without replying is a hang), a server panic is a violation, refused (RPC error or error-bit pack) => store diff empty (volatile timestamps ignored); after every hostile request a canary client syncs the same key and another key and must be answered. Client half: every error pack the server produced in the run and the five defined push-pull error codes are applied to a subscribed client: its error handler must be called, nothing may panic, and it must complete a normal sync of another datatype afterwards; " +
+		Rule: "request mutation over the real service: valid requests captured from correct clients in all states (due-to-create, due-to-subscribe, subscribed with and without pending operations) are mutated in one to three fields - unknown / foreign / empty / swapped DUID, unknown or empty key, wrong type, every combination of the seven option bits (read-only with and without operations, snapshot, delete, unsubscribe, error), checkpoints stale / future / huge / zero, operation lists with gaps, repeats, reordering, foreign client id, other era, emptied, 500 operations; unregistered / foreign-collection / administrative / empty client id, unknown / other / empty collection, no packs, duplicated packs - plus correct requests with a panic injected inside their handler's goroutine between lock acquisition and commit (hook pp.before-commit: the recovery path must answer, keep the process alive and release the key), plus ClientMessage, PatchMessage (invalid JSON, non-object JSON, key of another type, unknown collection) and CollectionMessage variants. Monitors: every call is answered (watchdog classification: a handler that ended without replying is a hang), a server panic is a violation, refused (RPC error or error-bit pack) => store diff empty (volatile timestamps ignored); after every hostile request a canary client syncs the same key and another key and must be answered. Client half: every error pack the server produced in the run and the five defined push-pull error codes are applied to a subscribed client: its error handler must be called, nothing may panic, and it must complete a normal sync of another datatype afterwards; " +
 			"non-trivial = the request differs from any request a correct client could send (every mutated request); distinct = hash of the mutation script",
 		Assumptions: []string{
 			"only 'answered / not answered / crashed' and 'refused => unchanged' are verdicts; whatever a canary notices after an ACCEPTED hostile request (error pack, client-side panic) is recorded as a diagnostic",
 			"operation bodies are not corrupted (a stored undecodable body is an accepted request whose effect on other clients is outside the statement)",
 		},
 		Trusted: []string{"fakemongo (dump / diff)", "fakemqtt", "harness transport (direct mode)"},
-		Cases:   func(t string) int { return tierN(t, 240, 8000) },
-		Floor:   func(t string) int { return tierN(t, 200, 6000) },
+		Cases:   func(t string) int { return tierN(t, 600, 8000) },
+		Floor:   func(t string) int { return tierN(t, 500, 6000) },
 		Run:     runC16,
 	})
 }
@@ -341,8 +342,57 @@ func runC16(c *core.Case) *core.Result {
 	_, _ = d1, d2
 	nHostile := tierN(c.Tier, 4, 6)
 	for h := 0; h < nHostile; h++ {
-		kind := r.Intn(10)
+		kind := r.Intn(11)
 		switch {
+		case kind == 10:
+			// a fault INSIDE the handler: a correct request of a subscribed client panics between
+			// lock acquisition and commit (injected at the hook point pp.before-commit, in the
+			// handler's own goroutine - what an unexpected nil in a stored document would do)
+			w.localOp(d0)
+			req := c0.BuildRequest(d0)
+			var armed int32 = 1
+			w.b.OnHook(func(point string, args ...interface{}) {
+				if point == "pp.before-commit" && atomic.CompareAndSwapInt32(&armed, 1, 0) {
+					panic("injected fault inside the push-pull handler")
+				}
+			})
+			c.Step("correct push-pull from c0 with a panic injected inside its handler (before commit)")
+			before := x.snap()
+			ex := c0.Send(req)
+			fired := atomic.LoadInt32(&armed) == 0
+			atomic.StoreInt32(&armed, 0)
+			refused := ex.Out.Err != nil
+			if ex.Resp != nil {
+				for _, p := range ex.Resp.PushPullPacks {
+					if bed.IsErrorPack(p) {
+						refused = true
+						x.errPacks = append(x.errPacks, p)
+					}
+				}
+			}
+			if res := x.judge("ProcessPushPull(handler-fault)", ex.Out, refused, before); res != nil {
+				return res
+			}
+			if fired {
+				c.Count("handler_faults_injected", 1)
+				if !refused {
+					c.Count("diagnostic_handler_fault_answered_without_error", 1)
+				}
+				// the recovery path must have released the key: the next correct request on k0 is served
+				x.w.localOp(x.cz0)
+				cex := x.canary.Send(x.canary.BuildRequest(x.cz0))
+				if cex.Out.TimedOut && cex.Out.Hang {
+					return c.Violation("no-answer:after-handler-fault", "after a panic inside a handler of key k0 the next request on that key is never answered\n%s", clipDump(cex.Out.Dump))
+				}
+				if cex.Out.TimedOut {
+					return c.Inconclusive("canary watchdog after handler fault")
+				}
+				if cex.Out.Err != nil || cex.Refused() {
+					return c.Violation("key-blocked-after-handler-fault", "after a panic inside a handler of key k0 the next correct request on that key is refused (rpc error %v): the recovery path did not release the key", cex.Out.Err)
+				}
+				x.canary.Apply(cex.Resp)
+				w.idle()
+			}
 		case kind < 7:
 			cl := x.att[r.Intn(len(x.att))]
 			for _, d := range cl.DTs {
